@@ -558,8 +558,8 @@ def compile_nvm(b, src, out):
     return rc == 0 and os.path.exists(out), (o + e)[-600:]
 
 
-def run_probe(probe, nvm, max_steps=20000, timeout=60):
-    rc, o, e = vlib.sh([probe, nvm, str(max_steps)], timeout=timeout, env=ENV)
+def run_probe(probe, nvm, max_steps=20000, timeout=60, audit_every=1):
+    rc, o, e = vlib.sh([probe, nvm, str(max_steps), str(audit_every)], timeout=timeout, env=ENV)
     return rc, o, e
 
 
@@ -702,7 +702,7 @@ class Runner:
         self.traps = collections.Counter()
         self.slices = collections.Counter()
 
-    def one(self, name, src_text, asan=False, max_steps=20000, src_path=None):
+    def one(self, name, src_text, asan=False, max_steps=20000, src_path=None, audit_every=1):
         """compile + trace + model.  -> dict.  Text starting with '.' is NanoISA assembly, anything else nano source.
         src_path: compile that file in place (repository programs with relative imports) instead of a scratch copy."""
         h = hashlib.sha1(src_text.encode()).hexdigest()[:12]
@@ -720,7 +720,7 @@ class Runner:
             ok, msg = compile_nvm(self.b, src, nvm)
             if not ok:
                 return dict(name=name, status='nocompile', msg=msg, src=src)
-        rc, o, e = run_probe(self.probe_asan if asan else self.probe, nvm, max_steps)
+        rc, o, e = run_probe(self.probe_asan if asan else self.probe, nvm, max_steps, timeout=60 if audit_every == 1 else 240, audit_every=audit_every)
         res = dict(name=name, status='ran', rc=rc, src=src, nvm=nvm, stderr=e[-1500:])
         steps, vl, el, xl, dl = parse_trace(o)
         res.update(steps=steps, v=vl, e=el, x=xl, d=dl)
@@ -730,12 +730,16 @@ class Runner:
             return res
         res['vm_error'] = any(l.split()[1] != '0' for l in el)
         res['leaks'] = leak_events(steps)
+        res['err_msg'] = (el[-1].split(None, 5)[-1] if el and len(el[-1].split(None, 5)) > 5 else '') if res['vm_error'] else ''
+        if audit_every != 1:
+            # sparse trace of a very long run: audited on the real VM only (the sampled stream cannot be replayed)
+            res['compared'], res['mismatch'], res['unsupported'] = 0, None, None
+            return res
         try:
             mout = model_run(self.ref, steps)
         except Exception as ex:
             res['model_exc'] = str(ex)[-500:]
             mout = []
-        res['err_msg'] = (el[-1].split(None, 5)[-1] if el and len(el[-1].split(None, 5)) > 5 else '') if res['vm_error'] else ''
         res['compared'], res['mismatch'], res['unsupported'] = compare(steps, mout, res['vm_error'], res['err_msg'])
         return res
 
@@ -814,6 +818,197 @@ def judge(ck, R, res, src_text, kind):
     return failed
 
 
+# ------------------------------------------------------------------------------------------------ many owners
+# One object referenced from N cells, N crossing the powers of two at which a narrower ref_count field would wrap: the interned
+# string of a literal, one array, one struct, held by N container cells or N stack slots; built by a loop, read while fully
+# shared, then released one reference at a time.  The model's count is unbounded (C14_count_never_wraps ties it to the field
+# width); here the REAL field is exercised.  N <= 257: traced and replayed on the model at every step; larger N: audit every
+# 1021st instruction and at the end (a run is millions of instructions).
+MANY_N = [256, 257, 65535, 65536, 65537, 131072]
+MANY_NANO = {
+    'string_in_array': '''fn main() -> int {
+    let mut held: array<string> = []
+    let mut i: int = 0
+    while (< i %(N)d) {
+        set held (array_push held "hello")
+        set i (+ i 1)
+    }
+    let first: int = (str_length (at held 0))
+    let other: string = (+ "WOR" "LD")
+    let mut bad: int = 0
+    set i 0
+    while (< i (array_length held)) {
+        if (!= (at held i) "hello") {
+            set bad (+ bad 1)
+        } else {
+            set bad (+ bad 0)
+        }
+        set i (+ i 257)
+    }
+    while (> (array_length held) 0) {
+        let x: string = (array_pop held)
+        if (!= x "hello") {
+            set bad (+ bad 1)
+        } else {
+            set bad (+ bad 0)
+        }
+    }
+    assert (== bad 0)
+    assert (== first 5)
+    assert (== other "WORLD")
+    return 0
+}
+''',
+    'array_in_array': '''fn main() -> int {
+    let shared: array<int> = [7, 8, 9]
+    let mut held: array<array<int>> = []
+    let mut i: int = 0
+    while (< i %(N)d) {
+        set held (array_push held shared)
+        set i (+ i 1)
+    }
+    let probe: array<int> = (at held 0)
+    let fresh: array<int> = [1, 2, 3]
+    let mut bad: int = 0
+    while (> (array_length held) 0) {
+        let x: array<int> = (array_pop held)
+        if (!= (at x 2) 9) {
+            set bad (+ bad 1)
+        } else {
+            set bad (+ bad 0)
+        }
+    }
+    assert (== bad 0)
+    assert (== (at shared 0) 7)
+    assert (== (at fresh 0) 1)
+    return 0
+}
+''',
+    'struct_in_array': '''struct P { x: int, name: string, items: array<int> }
+fn main() -> int {
+    let shared: P = P { x: 41, name: (+ "na" "me"), items: [1, 2] }
+    let mut held: array<P> = []
+    let mut i: int = 0
+    while (< i %(N)d) {
+        set held (array_push held shared)
+        set i (+ i 1)
+    }
+    let probe: P = (at held 0)
+    let fresh: P = P { x: 1, name: "other", items: [3] }
+    let mut bad: int = 0
+    while (> (array_length held) 0) {
+        let x: P = (array_pop held)
+        if (!= x.x 41) {
+            set bad (+ bad 1)
+        } else {
+            set bad (+ bad 0)
+        }
+    }
+    assert (== bad 0)
+    assert (== shared.name "name")
+    assert (== fresh.x 1)
+    return 0
+}
+''',
+}
+# N stack slots (bytecode): DUP in a loop, an unrelated allocation while fully shared, then POP one by one
+MANY_ASM = '''.string "hello"
+.string "WOR"
+.string "LD"
+.entry 0
+.function main 0 2 0
+  PUSH_I64 0
+  STORE_LOCAL 0
+  %(MAKE)s
+up:
+  LOAD_LOCAL 0
+  PUSH_I64 %(N)d
+  LT
+  JMP_FALSE full
+  DUP
+  LOAD_LOCAL 0
+  PUSH_I64 1
+  ADD
+  STORE_LOCAL 0
+  JMP up
+full:
+  DUP
+  POP
+  PUSH_STR 1
+  PUSH_STR 2
+  STR_CONCAT
+  STORE_LOCAL 1
+down:
+  LOAD_LOCAL 0
+  PUSH_I64 0
+  GT
+  JMP_FALSE done
+  POP
+  LOAD_LOCAL 0
+  PUSH_I64 1
+  SUB
+  STORE_LOCAL 0
+  JMP down
+done:
+  %(CHECK)s
+  PUSH_I64 0
+  RET
+.end
+'''
+MANY_ASM_KINDS = {'string_on_stack': ('PUSH_STR 0', 'STR_LEN\n  PUSH_I64 5\n  EQ\n  ASSERT'),
+                  'array_on_stack': ('PUSH_I64 4\n  PUSH_I64 5\n  ARR_LITERAL 1 2', 'ARR_LEN\n  PUSH_I64 2\n  EQ\n  ASSERT')}
+
+
+def many_owners_check(ck, R):
+    cases = []
+    for kind, tpl in MANY_NANO.items():
+        for n in MANY_N:
+            cases.append((kind, n, tpl % dict(N=n)))
+    for kind, (make, chk) in MANY_ASM_KINDS.items():
+        for n in MANY_N:
+            cases.append((kind, n, MANY_ASM % dict(N=n, MAKE=make, CHECK=chk)))
+    def work(c):
+        kind, n, src = c
+        sparse = n > 300
+        return R.one('many_%s_%d' % (kind, n), src, max_steps=40000000 if sparse else 40000,
+                     audit_every=(8191 if n > 100000 else 1021) if sparse else 1)
+    with ThreadPoolExecutor(14) as ex:
+        results = list(ex.map(work, cases))
+    seen = {}
+    try:
+        import gen_heapparams
+        width = gen_heapparams.measure(R.b).get('RC_BITS')
+    except Exception:
+        width = None
+    ck.extra['ref_count_field_bits'] = width
+    for (kind, n, src), res in zip(cases, results):
+        key = 'c14:manyowners:%s:N=%d' % (kind, n)
+        rep = dict(program=src, source_kind='many-owners', owners=n, ref_count_field_bits=width,
+                   broken_obligations=list(ck.proof['broken']), obligation='C14_count_fits_width: max_ref_cells < 2^rc_width (NV.gen.HeapParams)')
+        if res['status'] == 'nocompile':
+            ck.fail(key + ':norun', 'many-owners program does not compile: %s' % res['msg'][-200:], rep); continue
+        peak = max((rc for s in res['steps'] if s.live for (t, rc, ind) in s.live.values()), default=0)
+        seen.setdefault(kind, {})[n] = peak
+        ck.count(('many', kind, n), True, n=max(1, len(res['steps'])))
+        R.stats['many-owners'] += 1
+        if n <= 300:
+            judge(ck, R, res, src, 'many-owners:%s' % kind)          # full trace + model replay like every other program
+        elif res['v']:
+            ck.fail(key + ':' + res['v'][0].split()[2], 'heap audit on the real VM with %d owners of one object: %s' % (n, res['v'][0]),
+                    dict(rep, violation=res['v'][:5], stderr=res['stderr'][-600:], engine='heap_trace audit (every 1021st instruction + final)'))
+        elif res['status'] == 'crash':
+            ck.fail(key + ':crash', 'real VM crashed / sanitizer report (rc=%s) with %d owners of one object' % (res['rc'], n),
+                    dict(rep, stderr=res['stderr'][-1200:], engine='heap_trace'))
+        elif res['leaks']:
+            ck.fail(key + ':leak', 'ref_count exceeds in-degree with %d owners: %s' % (n, str(res['leaks'][0])[:200]), dict(rep, engine='heap_trace audit'))
+        if res['status'] == 'ran' and res.get('vm_error'):
+            ck.fail(key + ':wrong-result', 'program observing its own shared object failed on the real VM: %s' % res.get('err_msg', '')[:120],
+                    dict(rep, engine='heap_trace'))
+        elif res['status'] == 'ran' and peak < (n if n <= 300 else n - 9000):
+            ck.fail(key + ':not-reached', 'the audit never saw the expected %d owners (peak count %d)' % (n, peak), rep)
+    ck.extra['many_owners_peak_ref_count'] = seen
+
+
 def churn_check(ck, R):
     """live objects after k iterations must not depend on k (exact families); leaking families are findings."""
     ks = (3, 12, 40) if not ck.thorough else (3, 12, 40, 200)
@@ -852,10 +1047,10 @@ def churn_check(ck, R):
 def run(ck):
     R = Runner(ck)
     try:
-        ck.gen(['gen_churn14'])
+        ck.gen(['gen_churn14', 'gen_heapparams'])
     except Exception as ex:
         ck.note('translator gen_churn14 failed: %s' % str(ex)[-300:])
-        ck.proof['broken'].append('translator gen_churn14: %s' % str(ex)[-200:])
+        ck.proof['broken'].append('translator gen_churn14/gen_heapparams: %s' % str(ex)[-200:])
     proved = ck.prove()
     progs = []
     # 1. corpus first
@@ -903,6 +1098,8 @@ def run(ck):
         ck.extra['repo_programs'] = len(rres)
     # 3. churn family
     churn_check(ck, R)
+    # 3b. many owners of one object (count field width)
+    many_owners_check(ck, R)
     # 4. replay open known findings on the real code
     for kf in ck.known:
         inp = kf.get('input', {})
@@ -923,12 +1120,23 @@ def run(ck):
     ck.extra.update(exhaustive=False, programs=len(progs), program_status=dict(R.stats), opcode_histogram=dict(R.ops.most_common()),
                     leak_sites_seen=dict(R.leak_ops), model_unsupported=dict(R.unsupported), trap_sites_seen=dict(R.traps.most_common()), slice_cases=dict(R.slices),
                     generator_features=dict(feats.most_common()), asan_fraction='1/%d of the generated programs run under the asan build of the probe' % asan_every)
-    ck.trusted += ['probes/heap_trace.c (registry, in-degree audit, trace printer); hooks vm_verif_step_cb / vm_verif_heap_cb of the NANOLANG_VERIF build',
+    try:
+        mt = [int(l.split()[1]) for l in open('/proc/meminfo') if l.startswith(('MemTotal', 'SwapTotal'))]
+        ck.extra['host_memory_bytes'] = sum(mt) * 1024
+        ck.extra['memory_assumption_enforceable_here'] = sum(mt) * 1024 < 2 ** 36
+    except OSError:
+        pass
+    ck.trusted += ['tools/gen/dump_heapparams.c + gen_heapparams.py (sizeof/offsetof of VmHeapHeader.ref_count, NanoValue and the VM limits printed by the C compiler)',
+                   'probes/heap_trace.c (registry, in-degree audit, trace printer); hooks vm_verif_step_cb / vm_verif_heap_cb of the NANOLANG_VERIF build',
                    'extract/c14_driver.ml (parsing; opcode number -> model instruction constructor table)',
                    'extraction: ExtrOcamlBasic only',
                    'tools/props/c14.py comparison (live set, tag, ref_count, in-degree, stack depth, frame count per instruction boundary)']
     ck.assumptions += ['value tag == heap header type for every reference (checked by the audit on every reference it sees)',
-                       'ref_count < 2^32 (no wrap: a reference occupies >= 16 bytes of VM memory)',
+                       'ref_count field: the model counts with unbounded numbers; width of VmHeapHeader.ref_count, sizeof(NanoValue) and the VM limits are '
+                       'generated from the current headers (NV.gen.HeapParams) and C14_count_fits_width / C14_count_never_wraps prove that no count of an exact '
+                       'state wraps PROVIDED the NanoValue cells of the VM process occupy at most 2^35 bytes (assumed_vm_memory_bytes). The VM enforces no such '
+                       'limit: its own limits bound one stack, 4096 globals and 1024 frames, not the number of containers; with >= 64 GiB of cells one object can '
+                       'be given 2^32 owners and the 32-bit count wraps (not reproducible on this host; a saturating count would remove the assumption)',
                        'string contents abstracted to a key: two strings get the same key iff byte-equal (computed by the probe from the real strings)',
                        'hashmap opcodes, element-wise array arithmetic and FFI results other than strings/scalars are outside the model (audited on the real VM, not replayed)',
                        'C recursion depth of vm_release is not modelled (C13)',
